@@ -606,7 +606,7 @@ theorem sim_nestedCommit {c : Conn} {s : Spec} (h : Sim c s) {t : Nat} (ht : s.r
   obtain ⟨hn, hlt, _, hact, tail, t1, t2, t3, t4, _⟩ := sim_innermost h hsc
   let db' : DB := { c.db with raw := { c.db.raw with saves := tail } }
   have happ : c.db.apply (.release (c.txn sc.h).sp) = (some db', .ok) := by
-    simp [DB.apply, Raw.release, t1, db']
+    simp [DB.apply, Raw.release, t1, db', h.noauto]
   have hex : c.execute (.release (c.txn sc.h).sp) = ({ c with db := db' }, .ok) := by
     rw [execute_sim_root h ht, happ]
   have hres : c.nestedCommit sc.h = (({ c with db := db' } : Conn).poppedNested sc.h, .ok) := by
